@@ -199,6 +199,9 @@ pub enum Spec {
     Names { extra: usize },
     /// the scaled families of scaled.rs (large in one dimension)
     Scaled { deep: bool },
+    /// every grammar of a (small) scope under EVERY presentation (scopes::for_each_presentation): the interactions
+    /// of grammar shape with `_` fields, named / tuple fieldsets, struct / enum, declaration order and layout
+    GP(Scope),
 }
 
 impl Spec {
@@ -210,6 +213,7 @@ impl Spec {
             Spec::Files { k, .. } => format!("RepositoryGrammars(+{k} edits)"),
             Spec::Names { extra } => format!("NameRelations(names<={} chars, {} role pairs)", 1 + extra, crate::names::ROLE_PAIRS.len()),
             Spec::Scaled { deep } => format!("ScaledFamilies({})", if *deep { "deep" } else { "quick" }),
+            Spec::GP(s) => format!("{} x all presentations", s.name()),
         }
     }
 }
@@ -370,6 +374,33 @@ pub fn sweep(specs: &[Spec], budget_s: f64, per_case: &(dyn Fn(&Case, u64, &mut 
                     })
                     .collect();
                 (accs, json!({"valid_files_of_the_space": cases.len()}))
+            }
+            Spec::GP(sc) => {
+                let rhss = all_rhs(sc.n, sc.t, sc.k);
+                let tops = work_units(sc, 16);
+                let accs: Vec<Acc> = tops
+                    .par_iter()
+                    .enumerate()
+                    .map(|(ui, top)| {
+                        let mut acc = Acc::default();
+                        if over() {
+                            capped.store(true, std::sync::atomic::Ordering::Relaxed);
+                            return acc;
+                        }
+                        let mut idx = (ui as u64) << 32 | 1 << 57;
+                        for_each_completion(sc, &rhss, top, &mut |gr| {
+                            for_each_presentation(&gr, &mut |pres| {
+                                let case = Case::new(gr.clone(), pres);
+                                per_case(&case, idx, &mut acc);
+                                acc.inc("grammars");
+                                idx += 1;
+                            });
+                            acc.inc("grammars of the scope (each under all its presentations)");
+                        });
+                        acc
+                    })
+                    .collect();
+                (accs, json!({"work_units": tops.len(), "raw_size_of_the_scope": scope_size(sc).to_string()}))
             }
             Spec::Scaled { deep } => {
                 let fams = crate::scaled::families(*deep);
@@ -813,12 +844,12 @@ pub fn reference_or_note(case: &Case, acc: &mut Acc) -> Option<Reference> {
 fn specs_for(tier: Tier) -> Vec<Spec> {
     match tier {
         Tier::Quick => {
-            let mut v = vec![g(2, 2, 3, 3), g(2, 0, 3, 3), g(2, 1, 3, 3), g(1, 3, 3, 2), Spec::Files { k: 1, cap: 250 }, Spec::Names { extra: 2 }, Spec::Scaled { deep: false }];
+            let mut v = vec![g(2, 2, 3, 3), g(2, 0, 3, 3), g(2, 1, 3, 3), g(1, 3, 3, 2), Spec::Files { k: 1, cap: 250 }, Spec::Names { extra: 2 }, Spec::Scaled { deep: false }, Spec::GP(Scope { n: 2, t: 1, p: 2, k: 2, symmetry: false, only_cyclic: false }), Spec::GP(Scope { n: 1, t: 2, p: 2, k: 2, symmetry: false, only_cyclic: false })];
             v.extend(all_seed_nbh(1, 1, 100_000));
             v
         }
         Tier::Thorough => {
-            let mut v = vec![g(2, 2, 3, 3), g(2, 3, 4, 2), g(3, 2, 4, 2), gsym(2, 2, 4, 3), g(1, 3, 4, 3), gsym(3, 3, 3, 2), Spec::Files { k: 1, cap: 3000 }, Spec::Names { extra: 3 }, Spec::Scaled { deep: true }];
+            let mut v = vec![g(2, 2, 3, 3), g(2, 3, 4, 2), g(3, 2, 4, 2), gsym(2, 2, 4, 3), g(1, 3, 4, 3), gsym(3, 3, 3, 2), Spec::Files { k: 1, cap: 3000 }, Spec::Names { extra: 3 }, Spec::Scaled { deep: true }, Spec::GP(Scope { n: 2, t: 1, p: 2, k: 2, symmetry: false, only_cyclic: false }), Spec::GP(Scope { n: 1, t: 2, p: 2, k: 2, symmetry: false, only_cyclic: false }), Spec::GP(Scope { n: 2, t: 2, p: 2, k: 2, symmetry: true, only_cyclic: false })];
             v.extend(all_seed_nbh(2, 1, 60_000));
             v
         }
